@@ -69,6 +69,10 @@ def gen_cases(tier, seed):
                     skw[k] = rng.choice(['red', 'navy', '#abc', '#123456', 'gold', (1, 2, 3)])
             if kind != 'txt' and rng.random() < 0.5:
                 skw['scale'] = rng.choice([1, 2, 3])
+            if rng.random() < 0.5:
+                skw['border'] = rng.choice([0, 0, 1, 4])
+            if kind in ('png', 'svg', 'ppm', 'xpm', 'pdf', 'eps') and rng.random() < 0.3 and 'dark' not in skw and 'light' not in skw:
+                skw['dark'], skw['light'] = rng.choice([('white', 'black'), ('yellow', 'blue'), ('#fff', '#000')])   # light-on-dark
             calls.append({'op': 'save', 'content': gen.content_for_bits(rng.choice(['numeric', 'alphanumeric', 'byte']), rng.randint(1, 50)),
                           'make_kw': rng.choice([{}, {'error': 'H'}, {'micro': False}, {'version': 5}]), 'kind': kind, 'kw': skw})
     # same version for many contents: the thread phase makes them concurrently
@@ -166,13 +170,29 @@ def interaction_groups():
                               {'eci': True, 'encoding': 'gb2312'}, {'eci': True})])
     groups.append([{'op': 'save', 'content': 'INTERACTION', 'make_kw': {'error': 'Q'}, 'kind': kind, 'kw': dict(skw)}
                    for kind in ('pdf', 'eps', 'txt', 'xpm', 'pam') for skw in ({}, {'scale': 2}, {'border': 1})])
+    # a refused call in between: an unknown codec name, an encoding that cannot represent the text, an excluded
+    # combination - then the call that was made before must give what it gave before
+    groups.append([{'op': 'make', 'fn': 'make', 'content': c, 'kw': dict(kw)} for c, kw in
+                   (('点茗', {}), ('x', {'encoding': 'utf-9'}), ('点茗', {}), ('点茗荷', {'encoding': 'no-such-codec'}), ('点茗', {}),
+                    ('Grüße', {'encoding': 'ascii'}), ('点茗', {}), ('abc', {'version': 'M1'}), ('点茗', {}), ('1', {'error': 'H', 'micro': True}),
+                    ('点茗', {}), ('Grüße', {}), ('12345', {}), ('HELLO', {}))])
+    for png_kw in ({'border': 0, 'scale': 1, 'dark': 'white', 'light': 'black'}, {'border': 0, 'dark': 'yellow', 'light': 'blue'},
+                   {'border': 0, 'dark': 'white', 'light': None}, {'border': 0}, {'border': 0, 'scale': 1, 'dark': '#fff', 'light': '#000'}):
+        groups.append([{'op': 'save', 'content': c, 'make_kw': mk, 'kind': kind, 'kw': dict(png_kw)}
+                       for kind in ('png', 'pbm', 'xpm', 'pam') for c, mk in (('INTERACTION', {}), ('123', {'micro': True}), ('INTERACTION', {'version': 7}))
+                       if not (kind == 'pbm' and ('dark' in png_kw))])
     # the helper factories (always replayed, see run_cases): amounts with a tie beyond the second decimal, whose
     # rendering depends on the decimal context of whoever asks if the library touches that context
     groups.append([{'op': 'helper', 'fn': 'make_epc_qr', 'kw': {'name': 'N', 'iban': 'DE33100205000001194700', 'amount': a, 'text': 'x'}}
                    for a in (12.125, '12.125', 0.375, '2.675', 12.13, 12.12, '100.005', 0.01)] +
                   [{'op': 'helper', 'fn': 'make_wifi', 'kw': {'ssid': 'net', 'password': 'p;w', 'security': 'WPA'}},
                    {'op': 'helper', 'fn': 'make_geo', 'kw': {'lat': 38.8976763, 'lng': -77.0365297}},
-                   {'op': 'helper', 'fn': 'make_mecard', 'kw': {'name': 'Doe,John', 'email': 'a@example.org'}}] +
+                   {'op': 'helper', 'fn': 'make_mecard', 'kw': {'name': 'Doe,John', 'email': 'a@example.org'}},
+                   # recipients listed more than once: the order of the result is the order given, in every interpreter
+                   {'op': 'helper', 'fn': 'make_email', 'kw': {'to': ('b@example.org', 'a@example.org', 'b@example.org', 'c@example.org'),
+                                                                'cc': ('z@example.org', 'y@example.org', 'z@example.org'), 'subject': 'Hi'}},
+                   {'op': 'helper', 'fn': 'make_mecard', 'kw': {'name': 'Doe,John', 'email': ('b@example.org', 'a@example.org', 'b@example.org'),
+                                                                 'phone': ('2', '1', '2', '3')}}] +
                   # date / time values just before and after midnight: the day written must not depend on the time zone
                   # of the process (goldens are also taken under two other TZ settings, see golden_in_subprocess)
                   [{'op': 'helper', 'fn': 'make_vcard', 'kw': {'name': 'Doe;John', 'displayname': 'John Doe', 'rev': r, 'birthday': b}}
@@ -226,8 +246,11 @@ def execute(call):
         data = data.encode('utf-8') if isinstance(data, str) else data
         for rx, rep in _STAMPS:
             data = rx.sub(rep, data)
-        if [bytes(r) for r in q.matrix] != before:
-            return 'symbol-changed-by-serialisation', [q]
+        after = [bytes(r) for r in q.matrix]
+        if after != before:
+            return 'symbol-changed-by-serialisation: rows %d -> %d, row length %d -> %d, %d rows differ' % (
+                len(before), len(after), len(before[0]), len(after[0]) if after else -1,
+                sum(1 for a, b in zip(before, after) if a != b)), [q]
         return 'ok:' + hashlib.sha256(data).hexdigest()[:24], [q]
     except Exception as ex:  # noqa: BLE001
         return 'raised:%s:%s' % (type(ex).__name__, str(ex)[:80].strip()), []
@@ -253,7 +276,7 @@ def golden_in_subprocess(calls, rec=None):
                     if p3.stdout.decode().strip() != res[c['id']]:
                         rec.deviation('C15', 'result-depends-on-time-zone', {'default': res[c['id']], 'TZ': tz, 'other': p3.stdout.decode().strip(),
                                                                              'call': core.short(core.enc(c), 250)}, case=c)
-        if k % 4 == 0 and rec is not None:
+        if (k % 4 == 0 or c['op'] == 'helper') and rec is not None:
             # the same call in another fresh interpreter with another string-hash seed: results must not depend on set / dict order
             env = dict(core.child_env(), PYTHONHASHSEED=str(1000 + k))
             p2 = core.run_sub([sys.executable, '-m', 'vmon.props.c15', 'one'], input=json.dumps(core.enc(c)).encode(), capture_output=True,
@@ -336,7 +359,10 @@ def compare(call, fp, golden, rec, context):
     if want is None or want.startswith('golden-failed'):
         rec.count('golden_missing')
         return
-    if fp != want:
+    if fp.startswith('symbol-changed-by-serialisation'):
+        # (a verdict of its own: the golden run executes the same code and says the same)
+        rec.deviation('C15', 'symbol-changed-by-serialisation', {'context': context, 'what': fp, 'call': core.short(core.enc(call), 250)}, case=call)
+    elif fp != want:
         rec.deviation('C15', 'result-differs-from-golden', {'context': context, 'got': fp, 'golden': want,
                                                             'call': core.short(core.enc(call), 250)}, case=call)
 
@@ -462,7 +488,8 @@ def run_cases(cases, rec, tier='quick', seed='0'):
     plain = [c for c in cases if c['op'] != 'barrier-group']
     groups_i = interaction_groups()
     shard = int(os.environ.get('VERIF_SHARD', '0') or 0)
-    chosen = groups_i if tier == 'thorough' else [groups_i[shard % (len(groups_i) - 1)], groups_i[-1]]
+    nsh = max(1, core.nworkers())
+    chosen = groups_i if tier == 'thorough' else [g for i, g in enumerate(groups_i[:-1]) if i % nsh == shard % nsh] + [groups_i[-1]]
     for g in chosen:
         plain = plain + g
         rec.count('interaction_core_replayed')
